@@ -50,3 +50,26 @@ Definition numbered {A} (f : cell -> list A) (cells : list cell) : list (nat * l
          (combine (seq 0 (length cells)) (map f cells)).
 Definition mismatches probes cells := numbered (cell_mismatch probes) cells.
 Definition violations probes cells := numbered (cell_violation probes) cells.
+
+(* ---- CLI tie: real checks through the real binary ---- *)
+Record clicell := mkCli {
+  k_mod : Z; k_flag : option Z; k_tag : option Z;
+  k_sa1019 : list bool;      (* per API (deprecated since go1.N): reported? *)
+  k_sa1015 : bool;           (* time.Tick flagged? (restricted to stdlib < go1.23) *)
+  k_other : nat              (* number of unexpected problems *)
+}.
+Definition cli_std (c : clicell) : version :=
+  file_std_spec (pkg_version (Some (v1 (k_mod c))) (option_map v1 (k_flag c)) toolchain) (option_map v1 (k_tag c)).
+(* specification: SA1019 for an API deprecated since s is reported iff s <= stdlib version;
+   SA1015 iff stdlib version < go1.23 *)
+Definition cli_violation (since : list Z) (c : clicell) : list (nat * bool) :=
+  let std := cli_std c in
+  flat_map (fun x => let '(i, (s, r)) := x in
+              if Bool.eqb (vle (v1 s) std) r then [] else [(i, r)])
+           (combine (seq 0 (length since)) (combine since (k_sa1019 c))) ++
+  (if Bool.eqb (vcmp std (1, 23) =? -1) (k_sa1015 c) then [] else [(100%nat, k_sa1015 c)]) ++
+  (if Nat.eqb (k_other c) 0 then [] else [(200%nat, true)]) ++
+  (if Nat.eqb (length (k_sa1019 c)) (length since) then [] else [(300%nat, true)]).
+Definition cli_violations since (cells : list clicell) :=
+  filter (fun x => match snd x with [] => false | _ => true end)
+         (combine (seq 0 (length cells)) (map (cli_violation since) cells)).
